@@ -14,6 +14,12 @@ outside /repo and /verif, removed afterwards):
   T4 return-temp    `return <expr>` becomes `_rv = <expr>; return _rv` (non-generator, expr not a bare name/constant)
   T5 arg-temps      in `x = f(..., <binop>, ...)` whose other arguments are names/constants/attributes,
                     the arithmetic argument is bound to a temporary first
+  T6 compare-flip   `a < b` is written `b > a` (single, side-effect-free comparisons)
+  T7 if-else-swap   `if c: A else: B` becomes `if not c: B else: A` (no elif chains)
+  T8 keyword-reverse  keyword arguments of every call are listed in reverse order
+  T9 logging-inserted  `logger.debug(..)` after every simple statement of non-jitted functions
+  T10 docstrings-stripped
+  T11 swap-independent  adjacent call-free assignments that do not depend on each other are swapped
 Every registered check must exit 0 on every twin.
 """
 import ast, json, os, shutil, subprocess, symtable, sys, tempfile
@@ -251,8 +257,147 @@ def t_argtemps(src, fname):
     return ast.unparse(ast.fix_missing_locations(tree))
 
 
+
+# ---------------------------------------------------------------- T6 .. T12
+def _pure(e):
+    return not any(isinstance(x, (ast.Call, ast.Await, ast.Yield, ast.YieldFrom, ast.NamedExpr)) for x in ast.walk(e))
+
+
+class CmpFlip(ast.NodeTransformer):
+    FLIP = {ast.Lt: ast.Gt, ast.Gt: ast.Lt, ast.LtE: ast.GtE, ast.GtE: ast.LtE}
+
+    def visit_Compare(self, n):
+        self.generic_visit(n)
+        if len(n.ops) == 1 and type(n.ops[0]) in self.FLIP and _pure(n.left) and _pure(n.comparators[0]):
+            return ast.Compare(left=n.comparators[0], ops=[self.FLIP[type(n.ops[0])]()], comparators=[n.left])
+        return n
+
+
+def t_cmpflip(src, fname):
+    tree = ast.parse(src)
+    CmpFlip().visit(tree)
+    return ast.unparse(ast.fix_missing_locations(tree))
+
+
+class IfSwap(ast.NodeTransformer):
+    def visit_If(self, n):
+        self.generic_visit(n)
+        if n.orelse and not (len(n.orelse) == 1 and isinstance(n.orelse[0], ast.If)) and not (len(n.body) == 1 and isinstance(n.body[0], ast.If)):
+            return ast.If(test=ast.UnaryOp(op=ast.Not(), operand=n.test), body=n.orelse, orelse=n.body)
+        return n
+
+
+def t_ifswap(src, fname):
+    tree = ast.parse(src)
+    IfSwap().visit(tree)
+    return ast.unparse(ast.fix_missing_locations(tree))
+
+
+class KwReverse(ast.NodeTransformer):
+    def visit_Call(self, n):
+        self.generic_visit(n)
+        if len(n.keywords) > 1 and all(k.arg is not None and _pure(k.value) for k in n.keywords):
+            n.keywords = n.keywords[::-1]
+        return n
+
+
+def t_kwrev(src, fname):
+    tree = ast.parse(src)
+    KwReverse().visit(tree)
+    return ast.unparse(ast.fix_missing_locations(tree))
+
+
+class LogInsert(ast.NodeTransformer):
+    """logger.debug after every simple statement of undecorated functions in modules that define `logger`"""
+
+    def __init__(self):
+        self.jit = 0
+        self.depth = 0
+
+    def visit_FunctionDef(self, n):
+        jit = bool(n.decorator_list) and any("jit" in ast.unparse(d) for d in n.decorator_list)
+        self.jit += jit
+        self.depth += 1
+        self.generic_visit(n)
+        self.depth -= 1
+        self.jit -= jit
+        return n
+
+    def generic_visit(self, node):
+        super().generic_visit(node)
+        if self.depth and not self.jit:
+            for f in ("body", "orelse", "finalbody"):
+                b = getattr(node, f, None)
+                if isinstance(b, list) and b and isinstance(b[0], ast.stmt) and not isinstance(node, ast.ClassDef):
+                    out = []
+                    for i, s in enumerate(b):
+                        out.append(s)
+                        if isinstance(s, (ast.Assign, ast.AugAssign, ast.Expr)) and not (i == 0 and _is_doc(s)):
+                            out.append(ast.Expr(ast.Call(func=ast.Attribute(value=ast.Name("logger", ast.Load()), attr="debug", ctx=ast.Load()), args=[ast.Constant("twin trace")], keywords=[])))
+                    setattr(node, f, out)
+        return node
+
+
+def t_loginsert(src, fname):
+    if "\nlogger = " not in src:
+        return ast.unparse(ast.parse(src))
+    tree = ast.parse(src)
+    LogInsert().visit(tree)
+    return ast.unparse(ast.fix_missing_locations(tree))
+
+
+class DocStrip(ast.NodeTransformer):
+    def _strip(self, n):
+        self.generic_visit(n)
+        if n.body and _is_doc(n.body[0]) and len(n.body) > 1:
+            n.body = n.body[1:]
+        return n
+
+    visit_FunctionDef = visit_ClassDef = _strip
+
+
+def t_docstrip(src, fname):
+    tree = ast.parse(src)
+    DocStrip().visit(tree)
+    return ast.unparse(ast.fix_missing_locations(tree))
+
+
+class SwapIndependent(ast.NodeTransformer):
+    def _block(self, body):
+        out = list(body)
+        i = 0
+        while i + 1 < len(out):
+            a, b = out[i], out[i + 1]
+            if all(isinstance(s, ast.Assign) and len(s.targets) == 1 and isinstance(s.targets[0], ast.Name) and _pure(s.value) for s in (a, b)):
+                ta, tb = a.targets[0].id, b.targets[0].id
+                na = {x.id for x in ast.walk(a.value) if isinstance(x, ast.Name)}
+                nb = {x.id for x in ast.walk(b.value) if isinstance(x, ast.Name)}
+                if ta != tb and ta not in nb and tb not in na:
+                    out[i], out[i + 1] = b, a
+                    i += 2
+                    continue
+            i += 1
+        return out
+
+    def generic_visit(self, node):
+        super().generic_visit(node)
+        for f in ("body", "orelse", "finalbody"):
+            b = getattr(node, f, None)
+            if isinstance(b, list) and b and isinstance(b[0], ast.stmt) and not isinstance(node, (ast.Module, ast.ClassDef)):
+                setattr(node, f, self._block(b))
+        return node
+
+
+def t_swap(src, fname):
+    tree = ast.parse(src)
+    SwapIndependent().visit(tree)
+    return ast.unparse(ast.fix_missing_locations(tree))
+
+
 TWINS = {"T1": ("unparse", t_unparse), "T2": ("rename-locals", t_rename), "T3": ("pass-padding", t_pad),
-         "T4": ("return-temp", t_rettemp), "T5": ("arg-temps", t_argtemps)}
+         "T4": ("return-temp", t_rettemp), "T5": ("arg-temps", t_argtemps),
+         "T6": ("compare-flip", t_cmpflip), "T7": ("if-else-swap", t_ifswap), "T8": ("keyword-reverse", t_kwrev),
+         "T9": ("logging-inserted", t_loginsert), "T10": ("docstrings-stripped", t_docstrip), "T11": ("swap-independent", t_swap)}
 
 
 def emit(tid, dest):
